@@ -66,6 +66,14 @@ MISMATCH = [
                                       R.Action('set', [L('Q', matrix=('block', [R.Stage((N(value=9), N(value=12)), None), R.Stage(None, (N(value=40), None))]))])], [('tile', 'M')]),
     ('huge-row-on-plain', [R.Action('set', [L('A', matrix=('inline', (N(value=255), None), None))])]),
     ('huge-column-on-unknown', [R.Action('set', [L('Q', matrix=('inline', None, (N(value=1000), None)))])]),
+    # loops over the members of a group or location nobody reported: no pass, whatever the loop is to spread over its passes
+    ('loop-over-unknown-group', [R.Repeat('in', [R.Action('set', [R.Operand('light', R.Var('lt'))])], lvar='lt', items=[('group', R.Str('Nope'))])]),
+    ('loop-over-unknown-group-cycle', [R.Repeat('in', [R.SetReg('hue', R.Var('h')), R.Action('set', [R.Operand('light', R.Var('lt'))])], lvar='lt',
+                                               items=[('group', R.Str('Nope'))], dist=('cycle', 'h', None))]),
+    ('loop-over-unknown-location-cycle-from', [R.Repeat('in', [R.SetReg('hue', R.Var('h')), R.Action('on', [R.Operand('light', R.Var('lt'))])], lvar='lt',
+                                                       items=[('location', R.Str('Nowhere'))], dist=('cycle', 'h', N(value=90)))]),
+    ('loop-over-unknown-group-from-to', [R.Repeat('in', [R.SetReg('brightness', R.Var('b')), R.Action('set', [R.Operand('light', R.Var('lt'))])], lvar='lt',
+                                                 items=[('group', R.Str('Nope')), ('location', R.Str('Nowhere'))], dist=('from', 'b', N(value=10), N(value=90)))]),
     ('get-unknown', [R.Get(R.Str('Q'))]),
     ('get-multizone', [R.Get(R.Str('Z'))]),
 ]
